@@ -133,7 +133,7 @@ def dict_seq(o1: int, o2: int, o3: int, o4: int, o5: int, k1: int, k2: int, k3: 
 
 def bounds(tier):
     q = tier == "quick"
-    return {"steps": 3 if q else 5, "keys": "4 keys per kind: integers, strings, symbols, mixed (1, \"a\", :a, 0ca)",
+    return {"steps": 3 if q else 5, "keys": ("integers and the mixed set (1, \"a\", :a)" if q else "4 keys per kind: integers, strings, symbols, mixed (1, \"a\", :a, 0ca)"),
             "values": "unbounded symbolic integers", "operations": "add right/left, remove, add/remove through an alias, fresh literal, overwrite"}
 
 
@@ -142,9 +142,11 @@ def obligations(tier):
     obs = []
     for ks in KEYSETS:
         if q:
+            if ks in ("str", "sym"):
+                continue                  # quick: integer keys and the mixed set (integer, string, symbol); thorough: all four sets
             for f in range(7):
                 obs.append({"name": "dict %s keys 3 steps first=%d" % (ks, f), "fn": "dict_seq",
-                            "cfg": {"steps": 3, "keys": ks, "first": [f], "nkeys": 2}, "timeout": 400})
+                            "cfg": {"steps": 3, "keys": ks, "first": [f], "nkeys": 2}, "timeout": 600})
         else:
             for f in range(7):
                 for g in range(7):
